@@ -24,6 +24,8 @@ CAL_FIELDS = ["year_y", "year_g", "quarter", "month", "dom", "doy", "week_w", "w
 CAL_PARTS = [p for p in PARTS if FIELD[p] in CAL_FIELDS]
 TAGS = {"final": "", "alpha": "a", "beta": "b", "rc": "rc", "dev": "dev", "post": "post"}
 PYT = {v: k for k, v in TAGS.items()}
+# "preview" is readable as a TAG text (never offered by --tag): a distinct tag whose PEP 440 form is that of rc
+TAGS["preview"] = "rc"
 TAG_LIST = ["final", "alpha", "beta", "rc", "dev", "post"]
 
 
@@ -192,7 +194,7 @@ def render_info(ast, st):
 RANGES = {"Q": (1, 4), "MM": (1, 12), "0M": (1, 12), "DD": (1, 31), "0D": (1, 31), "JJJ": (1, 366), "00J": (1, 366),
           "WW": (0, 53), "0W": (0, 53), "UU": (0, 53), "0U": (0, 53), "VV": (1, 53), "0V": (1, 53)}
 FIXED_W = {"0M": 2, "0D": 2, "0W": 2, "0U": 2, "0V": 2, "00J": 3}
-TAG_WORDS = sorted(["final", "dev", "alpha", "beta", "post", "rc"], key=len, reverse=True)
+TAG_WORDS = sorted(["preview", "final", "dev", "alpha", "beta", "post", "rc"], key=len, reverse=True)
 PYTAG_WORDS = ["post", "dev", "rc", "a", "b"]
 
 
